@@ -43,6 +43,15 @@ def boundary_cases():
              '∀x∈ℬ(X1)×ℬ(X1) pr1(x)⊆pr1(x)', 'card(D{x∈ℬ(X1)×ℬ(X1) | ∀y∈ℬ(X1)×ℬ(X1) (pr1(y)⊆pr1(x) ⇒ pr2(x)=pr2(x))})',
              'R{x:=0 | x<200000 | x+1}', 'R{x:=0 | x<5 | x+1}', '∅', 'debool(∅)', 'pr1(debool(S1))', 'Pr1,1(S1)', 'Pr2,1,2(S1)',
              'Fi1[∅](S1)', 'Fi1,2[X1](S1)', 'Fi2,1[S1](S1)', 'bool(∅)', '{∅}', '(∅,∅)', 'ℬ(∅)', '∅×∅', 'X1×∅', 'card(X1×∅)']
+    # recursions whose variable starts with a wildcard type and is refined by the step (the condition must be re-checked
+    # against the refined type; if it is not, evaluation reads elements as sets / tuples)
+    from . import p03
+    ctx.types['S2'] = ty.S(ty.S(ty.E('X1')))
+    ctx.vclass['S2'] = 'value'
+    ctx.data['S2'] = frozenset([frozenset([1, 2]), frozenset([3])])
+    for label, tree in p03.refine_trees():
+        if label.startswith('refine'):
+            texts.append(rg.render(rg.map_locals(tree, lambda x: x), 'MATH')[0])
     meta_ctx = {'types': ctx.types, 'funcs': {}, 'traits': ctx.traits, 'vclass': ctx.vclass, 'bodies': {},
                 'data': {k: sm.enum_spec(v) for k, v in ctx.data.items()}}
     cases = []
